@@ -1805,7 +1805,7 @@ class FDE:
                 return self.stub(env[n][1], None, args, kwargs)       # a class imported into the function that the rule replaces by a stand-in
             if n in env and isinstance(env[n], tuple) and len(env[n]) == 2 and env[n][0] == 'class' and env[n][1] in self.constructors:
                 self.effects.append(('instantiate', env[n][1], tuple(args), tuple(sorted(kwargs.items(), key=lambda kv: kv[0]))))
-                return self.constructors[env[n][1]](*args, **kwargs)       # a class imported into the function, constructed by the rule's stand-in
+                return self._construct_standin(env[n][1], args, kwargs)       # a class imported into the function, constructed by the rule's stand-in
             if n in env and isinstance(env[n], tuple) and len(env[n]) == 2 and env[n][0] == 'class' and env[n][1] in ('list', 'tuple', 'dict') and len(args) == 1 and not kwargs and isinstance(args[0], Obj):
                 return Opaque('%s(%s)' % (env[n][1], args[0].name))       # `kind = list if ... else tuple; kind(node)`: as the direct call
             if n in env and isinstance(env[n], tuple) and len(env[n]) == 2 and env[n][0] == 'class' and env[n][1] in self.repo.classes and env[n][1] not in self.stubs and self._plain_class(env[n][1]):
@@ -1830,7 +1830,7 @@ class FDE:
                 return self._invoke(self.repo.resolve(env[n].cls, '__call__'), [env[n]] + args, kwargs)
             if n in self.repo.classes and n not in env and n in self.constructors:
                 self.effects.append(('instantiate', n, tuple(args), tuple(sorted(kwargs.items(), key=lambda kv: kv[0]))))
-                return self.constructors[n](*args, **kwargs)       # a rule supplies the object this construction yields
+                return self._construct_standin(n, args, kwargs)       # a rule supplies the object this construction yields
             if n in self.repo.classes and n not in env and n not in self.stubs and self._plain_class(n):
                 return self._construct_plain(n, args, kwargs, env, fi)
             if n in self.repo.classes and n not in env:
@@ -1966,6 +1966,21 @@ class FDE:
         if isinstance(f, (ast.Subscript, ast.Call, ast.IfExp)):
             return self._apply(self._ev(f, env, fi), args, kwargs, e)      # table[key](...), factory(...)(...)
         raise Unsupported('call of %s' % unparse(f))
+
+    def _construct_standin(self, cname, args, kwargs):
+        """Cls(...) answered by the rule's stand-in constructor: keyword arguments that name leading parameters of Cls.__init__ are
+        handed over by position (Cls(a, parent=b) and Cls(a, b) are the same construction)"""
+        init = self.repo.resolve(cname, '__init__') if cname in self.repo.classes else None
+        if init is not None and kwargs and not any(str(k).startswith('**') for k in kwargs):
+            a = init.node.args
+            names = [x.arg for x in a.posonlyargs + a.args][1:]
+            args, kwargs = list(args), dict(kwargs)
+            for i in range(len(args), len(names)):
+                if names[i] in kwargs:
+                    args.append(kwargs.pop(names[i]))
+                else:
+                    break
+        return self.constructors[cname](*args, **kwargs)
 
     def _both_views(self, t, args, kwargs, skip=0):
         """arguments of a call handed to a rule's stand-in, in both views: by position (keyword arguments naming leading parameters
